@@ -13,11 +13,11 @@ literal — each a single operand for this parser), the ten binary-operator kind
 **not written here**: they are the constants of `Gen/C12Tables.lean`, regenerated from the source on every run.
 
 No fuel: recursion is on the length of the remaining token list.  The `else none` of the three
-`if _ : r'.length … then … else none` tests is dead code (`parsePrim_consumes` in `Lemmas/BoolParse.lean` proves
+`if _ : r'.length … then … else none` tests is dead code (`parsePrim_consumes` in `Lemmas/CondParse.lean` proves
 the test always holds); it only makes the termination argument local.
 Core Lean only.
 -/
-namespace LiquidVerif.BoolParse
+namespace LiquidVerif.CondParse
 open LiquidVerif.Value LiquidVerif.Cond
 open LiquidVerif.Gen
 
@@ -180,4 +180,4 @@ def evalE (env : Nat → Val) (hs : Nat → String) : E → Res Val
 def evalCond (env : Nat → Val) (hs : Nat → String) (e : E) : Res Bool :=
   (evalE env hs e).bind fun v => .ok (isTruthy v)
 
-end LiquidVerif.BoolParse
+end LiquidVerif.CondParse
